@@ -122,6 +122,14 @@ def build(path, nobj, mode, onlybest, nextra, via, events, sidelog=None, collide
                 fc = ind.get_fitness(prob).fitness_components
                 return ["*", str(ind.get_phenotype())] + [str(fc[k]) for k in range(nobj)] + \
                     [str(f(ind.get_phenotype())) for _, f in extras]
+        elif mode == "empty":
+            # an explicitly EMPTY table of fields: the configured columns are the extra fields and nothing else
+            rec = CSVSearchRecorder(path, problem, fields={}, extra_fields=ef, only_record_best_individuals=onlybest)
+            header = [n for n, _ in extras]
+            kinds = ["extra"] * nextra
+
+            def expect(ind, prob):
+                return [str(f(ind.get_phenotype())) for _, f in extras]
         else:
             fields = {"Prog": lambda t, i, p: str(i.get_phenotype().prog)}
             for k in range(nobj):
@@ -285,6 +293,13 @@ def main():
             for (nobj, aslist, prescored) in ((1, True, False), (1, False, True), (2, False, True), (1, True, True)):
                 ev, cfg = session(R, work, idx, nobj, mode, onlybest, 1, via, R.randint(5, 12), aslist=aslist, prescored=prescored)
                 batch.trace(f"csv/{idx}/{cfg['via']}/special2/{nobj}{int(aslist)}{int(prescored)}/{'best' if onlybest else 'all'}", ev, cfg)
+                nev += len(ev)
+                idx += 1
+    for nobj in (1, 2):
+        for onlybest in (True, False):
+            for nextra in (1, 2):
+                ev, cfg = session(R, work, idx, nobj, "empty", onlybest, nextra, "direct", R.randint(4, 10))
+                batch.trace(f"csv/{idx}/{cfg['via']}/no-fields/{nobj}obj/{nextra}extra/{'best' if onlybest else 'all'}", ev, cfg)
                 nev += len(ev)
                 idx += 1
     nkill = 6 if quick else 200
